@@ -395,6 +395,26 @@ def _ns_case_st(draw, solver, clause):
 
 
 @st.composite
+def _dr_dual_case_st(draw):
+    """Douglas-Rachford fixed point with a non-zero dual certificate:
+    f = 1/2||x - a||^2, g_i = lam_i ||. - b_i||^2 (data solved in the run
+    from the fixed-point equations of the documented iteration)."""
+    sd = draw(_domain_st(kinds=('tensor', 'tensor', 'discr', 'pspace')))
+    terms = []
+    for _ in range(draw(st.integers(1, 2))):
+        terms.append({'L': draw(_op_st(sd, conds=[1.0, 3.0, 10.0],
+                                      compound_ok=False)),
+                      'lam': draw(st.sampled_from(pb.LAMS)),
+                      'form': draw(st.sampled_from(['left', 'right']))})
+    return {'domain': sd, 'terms': terms,
+            'seed': draw(st.integers(0, 2 ** 24)),
+            'tau': draw(st.sampled_from([1.0, 0.3, 3.0])),
+            'frac': draw(st.sampled_from([0.3, 0.6, 0.9])),
+            'lam': draw(st.sampled_from([1.0, 0.5, 1.5])),
+            'xscale': draw(st.sampled_from([1.0, 5.0, 0.2]))}
+
+
+@st.composite
 def _lin_case_st(draw, clause):
     seed = draw(st.integers(0, 2 ** 24))
     c = {'seed': seed, 'x0scale': draw(st.sampled_from([1.0, 10.0, 0.1]))}
@@ -491,6 +511,9 @@ def _strategy(draw):
         return {'clause': clause, 'c': draw(_lin_case_st(clause))}
     solver = draw(st.sampled_from(NS_SOLVERS))
     clause = draw(st.sampled_from(['fixed', 'progress', 'progress']))
+    if solver == 'dr' and clause == 'fixed' and draw(st.booleans()):
+        return {'clause': 'fixed-dual', 'solver': 'dr',
+                'c': draw(_dr_dual_case_st())}
     return {'clause': clause, 'solver': solver,
             'c': draw(_ns_case_st(solver, clause))}
 
@@ -1213,11 +1236,85 @@ def _nonsmooth(desc, strata):
                    notes={'iterations': res['k']})
 
 
+def _dr_fixed_dual(c, strata):
+    """`douglas_rachford_pd` keeps its auxiliary variable x and its duals
+    v_i private (v starts at 0).  A state (xbar, v = 0) is a fixed point of
+    the documented iteration
+        p1 = prox_{tau f}(x - tau/2 sum L_i^* v_i),      w1 = 2 p1 - x,
+        p2_i = prox_{sigma_i g_i^*}(v_i + sigma_i/2 L_i w1), w2_i = 2 p2_i - v_i,
+        z1 = w1 - tau/2 sum L_i^* w2_i,                  x += lam (z1 - p1),
+        z2_i = w2_i + sigma_i/2 L_i (2 z1 - w1),         v_i += lam (z2_i - p2_i)
+    with p1 = x*, p2_i = y_i* iff (x*, y*) is a KKT pair,
+    y_i* = -sigma_i/2 L_i xbar and xbar = x* - tau sum L_j^* y_j*.  For
+    quadratic g_i the certificate is free, so x* is drawn, y* solved from
+    these linear equations, and a, b_i from the KKT system: every primal
+    iterate the solver shows (callback) and its result must then equal x*.
+    """
+    X = pb.build.build_space(c['domain'])
+    dX = pb.gram_diag(X)
+    n = dX.size
+    rng = np.random.RandomState(int(c['seed']) % (2 ** 32))
+    lins = [pb.LinOp(pb.build_operator(t['L'], X), dX) for t in c['terms']]
+    strata += ['fixed-dual:dr', 'domain:' + _dom_kind(c['domain'])] + \
+        ['op:' + t['L']['kind'] for t in c['terms']]
+    ex = _exact_or_excluded(lins, strata)
+    if ex is not None:
+        return ex
+    m = len(lins)
+    tau = float(c['tau'])
+    sq = [max(l.norm, 1e-9) ** 2 for l in lins]
+    sig = [4 * float(c['frac']) * 0.9 / (m * tau * s_) for s_ in sq]
+    xstar = np.round(rng.standard_normal(n) * float(c['xscale']), 3)
+    Ladj = np.hstack([l.adj for l in lins])            # n x sum m_i
+    Lst = np.vstack([l.M for l in lins])
+    D = np.concatenate([np.full(l.dY.size, s_ / 2) for l, s_ in
+                        zip(lins, sig)])
+    # y + D L (x* - tau L^* y) = 0
+    Msys = np.eye(len(D)) - tau * (D[:, None] * (Lst @ Ladj))
+    svs = np.linalg.svd(Msys, compute_uv=False)
+    if svs[-1] < 1e-3 * max(svs[0], 1.0):
+        return Outcome('trivial', strata=strata + ['fixed-dual:singular'])
+    ystar = np.linalg.solve(Msys, -D * (Lst @ xstar))
+    xbar = xstar - tau * (Ladj @ ystar)
+    a = xstar + Ladj @ ystar
+    f = (0.5 * S.L2NormSquared(X)).translated(unflat(a, X))
+    gs, pos = [], 0
+    for t, l in zip(c['terms'], lins):
+        mi = l.dY.size
+        yi = ystar[pos:pos + mi]
+        pos += mi
+        lam_i = float(t['lam'])
+        fd = {'kind': 'l2sq', 'lam': lam_i, 'form': t['form']}
+        gs.append(pb.make_functional(
+            fd, l.op.range, {'b': l.M @ xstar - yi / (2 * lam_i)}))
+    x = unflat(xbar, X)
+    seq = []
+    S.douglas_rachford_pd(x, f, gs, [l.op for l in lins], 5, tau=tau,
+                          sigma=sig, lam=float(c['lam']),
+                          callback=lambda v: seq.append(
+                              wnorm(toflat(v, X) - xstar, dX)))
+    seq.append(wnorm(toflat(x, X) - xstar, dX))
+    scale = max(wnorm(xstar, dX), wnorm(xbar, dX), np.abs(a).max(), 1e-300)
+    tol = 1e-9 * scale / min(svs[-1] / max(svs[0], 1.0), 1.0)
+    if not max(seq) <= tol:
+        raise Violation(
+            'C12|fixed-point|douglas_rachford_pd|dual-certificate,m={}'
+            ''.format(m),
+            'started at the fixed point (xbar, v = 0) whose primal iterate '
+            'is the solution, the primal iterates leave x* by {:.3g} (tol '
+            '{:.3g}): {}'.format(max(seq), tol,
+                                 [float('%.3g' % e) for e in seq]))
+    return Outcome('ok', strata=strata,
+                   nontrivial=bool(np.max(np.abs(ystar)) > 1e-6 * scale))
+
+
 # --------------------------------------------------------------------------
 
 def run_case(desc):
     clause = desc['clause']
     c = desc['c']
+    if clause == 'fixed-dual':
+        return _dr_fixed_dual(c, [])
     if clause in ('fixed', 'progress'):
         return _nonsmooth(desc, [])
     strata = ['domain:' + _dom_kind(c['domain'])] if 'domain' in c else []
@@ -1237,7 +1334,7 @@ def run_case(desc):
 
 
 REQUIRED_STRATA = (
-    ['fixed:' + s for s in NS_SOLVERS] +
+    ['fixed:' + s for s in NS_SOLVERS] + ['fixed-dual:dr'] +
     ['progress:' + s for s in NS_SOLVERS] +
     ['cg', 'cgn', 'landweber', 'kaczmarz', 'steepest', 'power',
      'stepsize:pdhg', 'stepsize:dr', 'given:none', 'given:tau',
